@@ -1,15 +1,8 @@
 """C15 — Undefined pixels stay undefined: mask semantics and tile persistence."""
 PROPERTY = "C15"
 LEVEL = "other"
-CONTRACT_MODULES = ["contracts.specfuns", "contracts.lemmas_desc", "contracts.pyramid", "contracts.image", "contracts.merge", "contracts.pyramidio"]
-FUNCTIONS = [
-    "toasty.image.Image.fill_into_maskable_buffer",
-    "toasty.image.Image.update_into_maskable_buffer",
-    "toasty.image.Image.clear",
-    "toasty.image.Image.is_completely_masked",
-    "toasty.pyramid.PyramidIO.write_image",
-    "toasty.pyramid.PyramidIO.read_image",
-]
+CONTRACT_MODULES = ['contracts.specfuns', 'contracts.lemmas_desc', 'contracts.pyramid', 'contracts.image', 'contracts.merge', 'contracts.pyramidio', 'contracts.study', 'contracts.paths', 'contracts.parallel', 'contracts.multitan', 'contracts.toastsample', 'contracts.datarange', 'contracts.builderc', 'contracts.walk', 'contracts.reducer', 'contracts.lemmas_embed', 'contracts.generator', 'contracts.toastgeom', 'contracts.toastgen', 'contracts.multiwcs']
+FUNCTIONS = ['toasty.image.Image.fill_into_maskable_buffer', 'toasty.image.Image.update_into_maskable_buffer', 'toasty.image.Image.clear', 'toasty.image.Image.is_completely_masked', 'toasty.pyramid.PyramidIO.write_image', 'toasty.pyramid.PyramidIO.read_image', 'toasty.toast.ToastSampler.visit_callback', 'toasty.study.StudyTiling.tile_image', 'toasty.pyramid.PyramidIO.update_image']
 LEMMAS = []
 SLOW = ()
 TRUSTED_BASE = [
